@@ -82,8 +82,9 @@ package gnmi
 //@ func (*Server).doDelete(s, prefix, gnmiPath, target) (err)
 //@   props C13, C12
 //@   safe
-//@   modifies target.removes, checkFailures
+//@   modifies target.removes, checkFailures, lastFindExact, lastFindKey
 //@   requires serverWF(s) && target != nil && target.plugin != nil
+//@   ensures {C13,C03} delete-cut-only-for-exact-key-leaf: err == nil && !(lastFindExact && lastFindKey) ==> target.removes[len(target.removes) - 1] == effPath(prefix, gnmiPath)
 //@   ensures {C13} delete-lands-on-effective-path: err == nil ==> len(target.removes) == old(len(target.removes)) + 1 && (target.removes[len(target.removes) - 1] == effPath(prefix, gnmiPath) || (hasPrefix(effPath(prefix, gnmiPath), target.removes[len(target.removes) - 1] + "/") && !contains(substr(effPath(prefix, gnmiPath), len(target.removes[len(target.removes) - 1]) + 1, len(effPath(prefix, gnmiPath))), "/")))
 //@   ensures {C13} refused-delete-records-nothing: err != nil ==> len(target.removes) == old(len(target.removes)) && arrOf(target.removes) == old(arrOf(target.removes)) && checkFailures == old(checkFailures) + 1
 //@   ensures {C13} accepted-delete-passed-checks: err == nil ==> checkFailures == old(checkFailures)
@@ -93,7 +94,7 @@ package gnmi
 //@ func (*Server).doUpdateOrReplace(s, ctx, prefix, u, target) (err)
 //@   props C13, C12
 //@   safe
-//@   modifies mapOf(target.updates), checkFailures, getPathValuesCalls, lastGetPathValuesPrefix
+//@   modifies mapOf(target.updates), checkFailures, getPathValuesCalls, lastGetPathValuesPrefix, lastFindExact, lastFindKey
 //@   requires serverWF(s) && target != nil && target.plugin != nil && target.updates != nil && u != nil && wireValidTV(u.Val) && updatesWF(target)
 //@   ensures {C12,C13} update-values-never-nil: updatesWF(target)
 //@   ensures {C12} error-is-well-formed: errWF(err)
